@@ -13,7 +13,7 @@
 //!     files, early vs. late files: the probe reads the filter before / during / after its updates);
 //!   * `Mem{partitions, batch_rows}` — a partitioned MemTable.
 //! Query kinds: `Join` (INNER / LEFT / RIGHT / FULL / LEFT|RIGHT SEMI / LEFT|RIGHT ANTI / mark join
-//! through `EXISTS … OR …`, 1–3 equi keys (BIGINT, BIGINT, VARCHAR), either table on the left, optional
+//! through `EXISTS … OR …` / null-aware anti join through `NOT IN (subquery)`, optionally a null-equal first key, 1–3 equi keys (BIGINT, BIGINT, VARCHAR), either table on the left, optional
 //! static predicate on either side), `TopK` (`ORDER BY v [DESC] [NULLS FIRST|LAST], id LIMIT k`),
 //! `JoinTopK` (inner join + ORDER BY … LIMIT), `GroupTopK` (`SELECT k1, max|min(v) … GROUP BY k1 ORDER BY
 //! 2 LIMIT k`, the TopK-aggregation path) and `AggMinMax` (`SELECT min(v), max(v), min(k1), max(k1)`,
@@ -40,7 +40,27 @@
 //! is the ON = OFF equivalence; `GroupTopK` alone uses a plain-data aggregate to be tie-aware); scripted
 //! `Pending` sources are replaced by the GET-delaying object store plus runtime flavour / partition count.
 //!
-//! Sensitivity probes: see the end of this header (filled in after the runs).
+//! Open findings (known_findings.json, cases under /verif/regressions/C31/c31a):
+//!   * `agg-dynamic-filter-null-bound` — GENUINE C31 DEFECT (wrong result): `AggregateStream::
+//!     build_dynamic_filter_from_accumulator_bounds` drops the disjunct of every min/max whose bound is still NULL
+//!     instead of disabling the filter, and `scalar_min(Int64(None), x)` keeps the typed NULL forever: `SELECT
+//!     min(v), max(v), min(k1), max(k1) FROM p WHERE k2 = 0` returns min(k1) = 210 with the filter ON, 5 with it
+//!     OFF. Repair /verif/fixes/C31-aggregate-dynamic-filter-null-bound.diff (verified under mutrun: the case and
+//!     the un-excluded quick run pass, probes/log-all-run1.txt). Excluded: AggMinMax over data with NULLs.
+//!   * `parquet-sparse-page-mask` — the C24 finding of the parquet 59.2 push decoder, reached through a static
+//!     predicate + TopK dynamic filter (ON fails with `Invalid offset in sparse column chunk data`, OFF succeeds);
+//!     no repair here (dependency); the generator sets `max_predicate_cache_size = 0` in 3 of 4 cases and the rest
+//!     (pushdown_filters + predicate cache over Parquet) is excluded.
+//!
+//! Sensitivity probes (env-gated patch probes/probes.diff under mutrun, `VF_MUT=<q> vf-mixed c31a quick`; log in
+//! probes/log-all-run1.txt) — all caught:
+//!   q1 partitioned hash join publishes its dynamic filter as soon as ONE partition has reported, pending
+//!      partitions count as empty (completion barrier dropped): 3 VIOLATIONs within 42 cases;
+//!   q2 bounds predicate `key < max` instead of `key <= max`: VIOLATION at case 10;
+//!   q3 TopK publishes its threshold from a heap that is not yet full: VIOLATION at case 24.
+//! Budgets: quick 320 cases (20–70 s on the loaded box, ~30 % non-trivial, every pruning level labelled);
+//! thorough 12 000 cases (measured 10 min, 9 468 evaluations, 3 701 non-trivial — the first thorough run is
+//! what found `agg-dynamic-filter-null-bound`).
 use arrow::array::{ArrayRef, Int64Array, StringArray};
 use arrow::datatypes::{DataType, Field, Schema, SchemaRef};
 use arrow::record_batch::RecordBatch;
@@ -108,6 +128,8 @@ pub enum JoinKind {
     RightAnti,
     /// `WHERE l.v < c OR EXISTS (SELECT 1 FROM r WHERE r.k = l.k)` → mark join
     Mark,
+    /// `WHERE l.k1 NOT IN (SELECT k1 FROM r)` → null-aware anti join (NULL probe keys must survive the filter)
+    NotIn,
 }
 
 #[derive(Clone, Debug, Serialize, Deserialize)]
@@ -120,6 +142,9 @@ pub enum Kind {
         /// static predicates `b.v < c` / `p.v >= c`
         pred_b: Option<u32>,
         pred_p: Option<u32>,
+        /// first key compared with `IS NOT DISTINCT FROM` (NULL keys match each other)
+        #[serde(default)]
+        null_eq: bool,
     },
     TopK {
         desc: bool,
@@ -127,6 +152,9 @@ pub enum Kind {
         k: u16,
         /// `WHERE k2 = c`
         pred: Option<u8>,
+        /// `ORDER BY k2, v, id` (two-column threshold) instead of `ORDER BY v, id`
+        #[serde(default)]
+        by_k2: bool,
     },
     JoinTopK {
         keys: u8,
@@ -155,6 +183,13 @@ pub struct Cfg {
     pub bloom_on_read: bool,
     /// 0 = current-thread runtime, n = multi-thread with n workers
     pub workers: u8,
+    /// false = `max_predicate_cache_size = 0` (see the known finding `parquet-sparse-page-mask`)
+    #[serde(default = "yes")]
+    pub predicate_cache: bool,
+}
+
+fn yes() -> bool {
+    true
 }
 
 #[derive(Clone, Debug, Serialize, Deserialize)]
@@ -294,9 +329,9 @@ impl ObjectStore for DelayStore {
 
 fn sql_of(kind: &Kind) -> String {
     match kind {
-        Kind::Join { jt, keys, probe_left, pred_b, pred_p } => {
+        Kind::Join { jt, keys, probe_left, pred_b, pred_p, null_eq } => {
             let (l, r) = if *probe_left { ("p", "b") } else { ("b", "p") };
-            let mut on = vec![format!("{l}.k1 = {r}.k1")];
+            let mut on = vec![if *null_eq { format!("({l}.k1 IS NOT DISTINCT FROM {r}.k1)") } else { format!("{l}.k1 = {r}.k1") }];
             if *keys >= 2 {
                 on.push(format!("{l}.k2 = {r}.k2"));
             }
@@ -306,7 +341,7 @@ fn sql_of(kind: &Kind) -> String {
             let on = on.join(" AND ");
             let mut preds = vec![];
             let both = matches!(jt, JoinKind::Inner | JoinKind::Left | JoinKind::Right | JoinKind::Full);
-            let left_only = matches!(jt, JoinKind::LeftSemi | JoinKind::LeftAnti | JoinKind::Mark);
+            let left_only = matches!(jt, JoinKind::LeftSemi | JoinKind::LeftAnti | JoinKind::Mark | JoinKind::NotIn);
             let visible = |t: &str| both || (left_only && t == l) || (!both && !left_only && t == r);
             if let Some(c) = pred_b {
                 if visible("b") {
@@ -333,6 +368,10 @@ fn sql_of(kind: &Kind) -> String {
                 JoinKind::LeftAnti => format!("SELECT {l}.id AS lid, {l}.v AS lv FROM {l} LEFT ANTI JOIN {r} ON {on}{wh}"),
                 JoinKind::RightSemi => format!("SELECT {r}.id AS rid, {r}.v AS rv FROM {l} RIGHT SEMI JOIN {r} ON {on}{wh}"),
                 JoinKind::RightAnti => format!("SELECT {r}.id AS rid, {r}.v AS rv FROM {l} RIGHT ANTI JOIN {r} ON {on}{wh}"),
+                JoinKind::NotIn => {
+                    let and = if preds.is_empty() { String::new() } else { format!(" AND {}", preds.join(" AND ")) };
+                    format!("SELECT {l}.id AS lid, {l}.v AS lv FROM {l} WHERE {l}.k1 NOT IN (SELECT k1 FROM {r}){and}")
+                }
                 JoinKind::Mark => {
                     let c = pred_b.or(*pred_p).unwrap_or(3);
                     let corr = on.replace(" AND ", " AND ");
@@ -340,9 +379,10 @@ fn sql_of(kind: &Kind) -> String {
                 }
             }
         }
-        Kind::TopK { desc, nulls_first, k, pred } => {
+        Kind::TopK { desc, nulls_first, k, pred, by_k2 } => {
             let wh = pred.map(|c| format!(" WHERE k2 = {c}")).unwrap_or_default();
-            format!("SELECT id, k1, v FROM p{wh} ORDER BY v {} NULLS {}, id LIMIT {}", if *desc { "DESC" } else { "ASC" }, if *nulls_first { "FIRST" } else { "LAST" }, k)
+            let lead = if *by_k2 { format!("k2 {}, ", if *desc { "ASC" } else { "DESC" }) } else { String::new() };
+            format!("SELECT id, k1, k2, v FROM p{wh} ORDER BY {lead}v {} NULLS {}, id LIMIT {}", if *desc { "DESC" } else { "ASC" }, if *nulls_first { "FIRST" } else { "LAST" }, k)
         }
         Kind::JoinTopK { keys, desc, k } => {
             let mut on = vec!["b.k1 = p.k1".to_string()];
@@ -362,7 +402,8 @@ fn sql_of(kind: &Kind) -> String {
             }
         }
         Kind::AggMinMax { pred } => {
-            let wh = pred.map(|c| format!(" WHERE k2 = {c}")).unwrap_or_default();
+            // always a predicate: without one the answer comes from the file statistics and nothing is scanned
+            let wh = pred.map(|c| format!(" WHERE k2 = {c}")).unwrap_or_else(|| " WHERE k3 <> 'zz'".to_string());
             format!("SELECT min(v) AS a, max(v) AS b, min(k1) AS c, max(k1) AS d FROM p{wh}")
         }
     }
@@ -393,6 +434,9 @@ fn options_of(cfg: &Cfg, dynamic: bool) -> Vec<(String, String)> {
         ("datafusion.execution.parquet.enable_page_index".into(), b(cfg.page_index)),
         ("datafusion.execution.parquet.bloom_filter_on_read".into(), b(cfg.bloom_on_read)),
     ];
+    if !cfg.predicate_cache {
+        o.push(("datafusion.execution.parquet.max_predicate_cache_size".into(), "0".into()));
+    }
     if cfg.partitioned_join {
         o.push(("datafusion.optimizer.hash_join_single_partition_threshold".into(), "0".into()));
         o.push(("datafusion.optimizer.hash_join_single_partition_threshold_rows".into(), "0".into()));
@@ -635,7 +679,7 @@ impl Property for C31a {
         strategy(tier)
     }
     fn budget(&self, tier: Tier) -> Budget {
-        Budget::new(tier.pick(240, 12_000), tier.pick(8, 16)).min_nontrivial(tier.pick(40, 2_000)).case_timeout(150).shrink(200, 90)
+        Budget::new(tier.pick(320, 12_000), tier.pick(8, 16)).min_nontrivial(tier.pick(40, 2_000)).case_timeout(150).shrink(200, 90)
     }
     fn rule(&self) -> String {
         "two tables (build: 1-250 rows in a narrow key window; probe: 100-2500 rows over a wide key domain; NULL keys/values, duplicates) stored as multi-file / multi-row-group / multi-page Parquet listing \
@@ -651,6 +695,21 @@ impl Property for C31a {
             "ORDER BY of the TopK kinds ends in unique ids (total order); GroupTopK ties at the cut are arbitrary: the aggregate-value sequence must match and every returned group must be a true group".into(),
             "yield-based GET delays and the runtime flavour only change timing, never the data".into(),
         ]
+    }
+    /// `parquet-sparse-page-mask` (the C24 finding `pushdown+mask+predicate-cache+small-batch`, a defect of
+    /// the parquet 59.2 push decoder): with `pushdown_filters` and the predicate cache, a row filter of two
+    /// or more conjuncts (here: a static predicate plus the dynamic filter) can fail with `Invalid offset in
+    /// sparse column chunk data`. The generator turns the cache off (`max_predicate_cache_size = 0`) in
+    /// three of four cases; the remaining exposure is excluded while that finding is open.
+    /// `agg-dynamic-filter-null-bound`: the aggregate dynamic filter drops the disjunct of a min/max whose
+    /// bound is still NULL (needs NULLs in an aggregated column) — a genuine C31 defect, see known_findings.json.
+    fn known_signature(&self, case: &Case) -> Option<String> {
+        // `VF_MIXED_IGNORE_KNOWN=1` (verification of the candidate repair under mutrun) lifts this exclusion
+        if std::env::var("VF_MIXED_IGNORE_KNOWN").is_err() && matches!(case.kind, Kind::AggMinMax { .. }) && (case.p.null_key_pct > 0 || case.p.null_v_pct > 0) {
+            return Some("agg-dynamic-filter-null-bound".into());
+        }
+        let parquet = matches!(case.p_store, Storage::Parquet { .. }) || matches!(case.b_store, Storage::Parquet { .. });
+        if case.cfg.pushdown_filters && case.cfg.predicate_cache && parquet { Some("parquet-sparse-page-mask".into()) } else { None }
     }
     fn run(&self, case: &Case) -> CaseResult {
         if !valid_case(case) {
@@ -668,8 +727,12 @@ impl Property for C31a {
         labels.push(format!("probe={}", if matches!(case.p_store, Storage::Parquet { .. }) { "parquet" } else { "mem" }));
         labels.push(format!("build={}", if matches!(case.b_store, Storage::Parquet { .. }) { "parquet" } else { "mem" }));
         labels.push(format!("pushdown_filters={}", case.cfg.pushdown_filters));
+        labels.push(format!("predicate_cache={}", case.cfg.predicate_cache));
         labels.push(format!("inlist_mode={}", case.cfg.inlist_mode));
         labels.push(format!("runtime={}", if case.cfg.workers == 0 { "current-thread" } else { "multi-thread" }));
+        if matches!(case.kind, Kind::Join { null_eq: true, .. }) {
+            labels.push("null-equal-key".into());
+        }
         if let Kind::Join { keys, .. } | Kind::JoinTopK { keys, .. } = &case.kind {
             labels.push(format!("keys={keys}"));
             labels.push(format!("join-mode={}", if case.cfg.partitioned_join { "partitioned" } else { "default" }));
@@ -762,8 +825,14 @@ impl Property for C31a {
             .labels(labels)
             .nontrivial(true);
         }
+        if std::env::var("VF_C31A_SHOW").is_ok() {
+            eprintln!("sql: {sql}\nON plan:\n{}\nON counters: {:?} leaf_rows={} filter_rows={}\nOFF counters: {:?} leaf_rows={} filter_rows={}\nrows: {}", on.plan_text, on.stats.counters, on.stats.leaf_rows, on.stats.filter_rows, off.stats.counters, off.stats.leaf_rows, off.stats.filter_rows, on.rows.len());
+        }
         let effective = on_pruned > off_pruned || on.stats.leaf_rows < off.stats.leaf_rows || on.stats.filter_rows < off.stats.filter_rows;
         let nt = on.stats.has_dynamic_filter && effective && !on.rows.is_empty();
+        if nt {
+            labels.push(format!("nontrivial:{}", kind_label(&case.kind)));
+        }
         CaseResult::pass().nontrivial(nt).labels(labels)
     }
 }
@@ -791,20 +860,22 @@ fn kind_strategy() -> BoxedStrategy<Kind> {
         JoinKind::LeftAnti,
         JoinKind::RightAnti,
         JoinKind::Mark,
+        JoinKind::NotIn,
     ]);
-    let join = (jt, 1u8..=3, any::<bool>(), prop::option::weighted(0.25, 1u32..1000), prop::option::weighted(0.25, 0u32..900)).prop_map(|(jt, keys, probe_left, pred_b, pred_p)| Kind::Join { jt, keys, probe_left, pred_b, pred_p });
-    let topk = (any::<bool>(), any::<bool>(), 1u16..40, prop::option::weighted(0.3, 0u8..5)).prop_map(|(desc, nulls_first, k, pred)| Kind::TopK { desc, nulls_first, k, pred });
+    let join = (jt, 1u8..=3, any::<bool>(), prop::option::weighted(0.25, 1u32..1000), prop::option::weighted(0.25, 0u32..900), prop::bool::weighted(0.15))
+        .prop_map(|(jt, keys, probe_left, pred_b, pred_p, null_eq)| Kind::Join { jt, keys, probe_left, pred_b, pred_p, null_eq });
+    let topk = (any::<bool>(), any::<bool>(), 1u16..40, prop::option::weighted(0.3, 0u8..5), prop::bool::weighted(0.3)).prop_map(|(desc, nulls_first, k, pred, by_k2)| Kind::TopK { desc, nulls_first, k, pred, by_k2 });
     let jtopk = (1u8..=3, any::<bool>(), 1u16..40).prop_map(|(keys, desc, k)| Kind::JoinTopK { keys, desc, k });
     let gtopk = (any::<bool>(), 1u16..12).prop_map(|(max, k)| Kind::GroupTopK { max, k });
     let agg = prop::option::weighted(0.4, 0u8..5).prop_map(|pred| Kind::AggMinMax { pred });
-    prop_oneof![10 => join, 4 => topk, 2 => jtopk, 2 => gtopk, 2 => agg].boxed()
+    prop_oneof![12 => join, 4 => topk, 2 => jtopk, 1 => gtopk, 3 => agg].boxed()
 }
 
 fn strategy(tier: Tier) -> BoxedStrategy<Case> {
     let max_p = tier.pick(1500u32, 4000u32);
     let p = (100u32..max_p, 0i32..50, prop::sample::select(vec![50u32, 300, 1000, 5000]), prop::sample::select(vec![0u8, 0, 3, 20]), prop::sample::select(vec![0u8, 5, 30]), prop::sample::select(vec![5u32, 100, 1000]), any::<u32>())
         .prop_map(|(rows, key_lo, key_span, null_key_pct, null_v_pct, v_span, seed)| DataSpec { rows, key_lo, key_span, null_key_pct, null_v_pct, v_span, seed });
-    let b = (1u32..250, -20i32..1200, prop::sample::select(vec![1u32, 5, 30, 200, 2000]), prop::sample::select(vec![0u8, 0, 5, 50]), prop::sample::select(vec![0u8, 10]), prop::sample::select(vec![5u32, 1000]), any::<u32>())
+    let b = (1u32..250, 0i32..1100, prop::sample::select(vec![1u32, 5, 30, 200, 2000]), prop::sample::select(vec![0u8, 0, 5, 50]), prop::sample::select(vec![0u8, 10]), prop::sample::select(vec![5u32, 1000]), any::<u32>())
         .prop_map(|(rows, key_lo, key_span, null_key_pct, null_v_pct, v_span, seed)| DataSpec { rows, key_lo, key_span, null_key_pct, null_v_pct, v_span, seed });
     let cfg = (
         1u8..=8,
@@ -816,8 +887,9 @@ fn strategy(tier: Tier) -> BoxedStrategy<Case> {
         prop::bool::weighted(0.8),
         prop::bool::weighted(0.8),
         prop_oneof![3 => Just(0u8), 1 => 2u8..=4],
+        prop::bool::weighted(0.25),
     )
-        .prop_map(|(target_partitions, batch_size, partitioned_join, inlist_mode, pushdown_filters, reorder_filters, page_index, bloom_on_read, workers)| Cfg {
+        .prop_map(|(target_partitions, batch_size, partitioned_join, inlist_mode, pushdown_filters, reorder_filters, page_index, bloom_on_read, workers, predicate_cache)| Cfg {
             target_partitions,
             batch_size,
             partitioned_join,
@@ -827,6 +899,14 @@ fn strategy(tier: Tier) -> BoxedStrategy<Case> {
             page_index,
             bloom_on_read,
             workers,
+            predicate_cache,
         });
-    (kind_strategy(), b, storage_strategy(1, tier), p, storage_strategy(6, tier), cfg).prop_map(|(kind, b, b_store, p, p_store, cfg)| Case { kind, b, b_store, p, p_store, cfg }).boxed()
+    (kind_strategy(), b, storage_strategy(1, tier), p, storage_strategy(6, tier), cfg)
+        .prop_map(|(kind, mut b, b_store, p, p_store, cfg)| {
+            // `b.key_lo` was drawn as a per-mille position: place the build window inside (or just past the
+            // end of) the probe key domain so that most joins have matches and bounds that can prune
+            b.key_lo = p.key_lo - 2 + ((p.key_span as i64 * b.key_lo as i64) / 1000) as i32;
+            Case { kind, b, b_store, p, p_store, cfg }
+        })
+        .boxed()
 }
